@@ -32,7 +32,7 @@ var raceMode = os.Getenv("VERIF_RACE") != ""
 
 func TestMain(m *testing.M) {
 	kf, _ = known.Load(ev.KnownFile())
-	rec.Rule("generated universes (npm, Maven, PyPI; 2-12 packages, 1-5 versions each, cycles, conflicts, tags, markers, extras, exclusions aimed at reachable artifacts; successive versions share requirement lists; npm with aliases, bundled packages and versions of equal precedence; PyPI with extras-heavy universes and four resolver stress shapes), an all-roots sweep per universe (every root once in a drawn order and once reversed on one client and resolver) and histories drawn by a rapid state machine over one client/resolver: resolve(root), resolveAgain, resolveConcurrently(up to 16 roots; PyPI one resolver per goroutine over the shared client), reloadPermuted (same data inserted in another order), with the client snapshot checked after every action; oracle = metamorphic: every returned graph equals (harness isomorphism labeller, Duration ignored) the graph of a brand-new client and resolver for that root, and Versions/Requirements/MatchingVersions for every package, version and requirement string of the universe are unchanged, order included, as is every attribute of every version and requirement read key by key (the printed form of an attribute set does not show a value written through a shared copy). The -race binary runs the concurrent histories; any data race report fails the run. One evaluation = one Resolve compared with its fresh twin. Non-trivial: a history with >= 2 resolves of different roots before the checked one, a concurrent batch >= 4, or a permuted reload. Distinct = distinct (universe, history).")
+	rec.Rule("generated universes (npm, Maven, PyPI; 2-12 packages, 1-5 versions each, cycles, conflicts, tags, markers, extras, exclusions aimed at reachable artifacts; successive versions share requirement lists; npm with aliases, bundled packages and versions of equal precedence; PyPI with extras-heavy universes and four resolver stress shapes), an all-roots sweep per universe (every root once in a drawn order and once reversed on one client and resolver) and histories drawn by a rapid state machine over one client/resolver: resolve(root), resolveAgain, resolveConcurrently(up to 16 roots; PyPI one resolver per goroutine over the shared client), reloadPermuted (same data inserted in another order), with the client snapshot checked after every action; oracle = metamorphic: every returned graph equals (harness isomorphism labeller, Duration ignored) the graph of a brand-new client and resolver for that root, and Versions/Requirements/MatchingVersions for every package, version and requirement string of the universe are unchanged, order included, as is every attribute of every version and requirement read key by key (the printed form of an attribute set does not show a value written through a shared copy). The -race binary runs the concurrent histories; any data race report fails the run. One evaluation = one Resolve compared with its fresh twin. Non-trivial: a history with >= 2 resolves of different roots before the checked one, a concurrent batch >= 4, or a permuted reload. Distinct = distinct (universe, history). Maven and PyPI universes carry a second spelling of some versions (1.0 next to 1.0.0, equal in precedence).")
 	ev.Main(m, rec)
 }
 
